@@ -255,7 +255,7 @@ def pushContent (x : Content) : M Unit := modify fun s => { s with content := s.
 /-- `wrap_instantiated_class`; `none` when the class is ignored -/
 def wrapInstantiatedClass (cfg : MCfg) (c : IClass) (ns : String) : M (Option (String × String)) := do
   let fileName := c.name
-  let key := joinWith "::" (c.nsPath.drop 1) ++ "::" ++ c.name
+  let key := joinWith "::" (c.nsPath.drop 1 ++ [c.name])
   if cfg.ignore.contains key then return none
   let mut text := classComment c
   -- `wrap_methods(instantiated_class.methods)`: only the default-argument expansion can fail
@@ -277,7 +277,7 @@ def wrapInstantiatedClass (cfg : MCfg) (c : IClass) (ns : String) : M (Option (S
   text := text ++ "  end"
   text := text ++ "\n\n" ++ reindent "  " (← wrapStaticMethods cfg ns c ser) ++ "  end\n" ++ "end\n"
   for e in c.enums do
-    let sub := (if ns.isEmpty then "" else "+" ++ ns ++ "/") ++ "+" ++ c.name
+    let sub := String.join ((c.nsPath.drop 1).map fun x => "+" ++ x ++ "/") ++ "+" ++ c.name   -- one folder per namespace
     pushContent (.folder sub [wrapEnum e])
   pure (some (fileName ++ ".m", text))
 
@@ -323,7 +323,7 @@ def wrapNamespace (cfg : MCfg) (fuel : Nat) (name : String) (p : List String) (c
         else
           match ← wrapInstantiatedClass cfg c "" with
           | some (f, t) => top := top ++ [.file f t]
-          | none => liftE (.error .validation)   -- `class_text[0]` on None: TypeError
+          | none => pure ()
       | _ => pure ()
     modify fun s => { s with content := s.content ++ top }
     if inner then pushContent (.scope scope)
